@@ -347,6 +347,7 @@ BROAD_OPS = [
     ["P", P1, {}, False],
     ["P", P1, O_FCL, False],
     ["P", P1, {}, True],
+    ["P", P1, O_FCL, True],                    # details, explicit options
     ["P", ["correct_tip_offset"], {}, False],          # missing prerequisite
     ["P", ["nope"], {}, False],                         # unknown step
     F(),
